@@ -69,7 +69,9 @@ def moments18(x):
     return np.array([0.0 if (v != v) else (1.7976931348623157e308 if v == float("inf") else (-1.7976931348623157e308 if v == float("-inf") else v)) for v in out])
 
 
-def msm_1d(cov="identity", standardise=False, calculator=moments18):
+def msm_1d(cov="identity", standardise=False, calculator=moments18, abs_floor=True):
+    """abs_floor: treat a per-moment variance below 1e-20 (rounding noise of moments that are exactly equal in exact arithmetic) as the
+    undefined 0/0; switched off for data at unusual scales, where only a variance that is negligible RELATIVE to the moments counts."""
     def f(members, y):
         ms = [np.asarray(calculator(m), dtype=float) for m in members]
         my = np.asarray(calculator(y), dtype=float)
@@ -82,7 +84,8 @@ def msm_1d(cov="identity", standardise=False, calculator=moments18):
             return float(np.sum(g * g))
         if isinstance(cov, str) and cov == "inverse_variance":
             var = np.mean(np.array([(my - m) ** 2 for m in ms]), axis=0)
-            if np.min(var) < 1e-20 * max(1.0, float(np.max(my * my))):
+            scale = my * my + np.max(np.array(ms) ** 2, axis=0)
+            if np.any(var <= 1e-24 * scale) or (abs_floor and np.min(var) < 1e-20 * max(1.0, float(np.max(my * my)))):
                 return float("nan")  # 0/0 (a moment on which every member equals the real series): undefined by definition
             return float(np.sum(g * g / var))
         W = np.asarray(cov, dtype=float)
